@@ -117,3 +117,4 @@ impl<K, V> BTreeMap<K, V> {
 
 // `vec![e; n]`: e is evaluated ONCE and cloned n times   [std semantics]
 #[verifier::external_body] pub fn vec_from_elem<T: Copy>(e: T, n: usize) -> (r: Vec<T>) ensures r@.len() == n, forall|i: int| 0 <= i < n ==> #[trigger] r@[i] == e { unimplemented!() }
+
